@@ -23,12 +23,8 @@ import onnx.numpy_helper
 import onnx.shape_inference
 
 ORIG_INFER_SHAPES = onnx.shape_inference.infer_shapes  # saved before anything can be patched
-try:  # value propagation through onnxruntime logs every failed run on stderr
-    import onnxruntime as _ort
-
-    _ort.set_default_logger_severity(4)
-except Exception:  # noqa: BLE001
-    pass
+# (onnxruntime is never imported in the parent process: its threads would not survive the fork of the
+#  worker pool; its stderr noise is silenced around the call instead)
 
 MODULES = [
     ("spox.opset.ai.onnx.v17", "", 17),
@@ -455,8 +451,28 @@ def _gen_body_call(rng, op: Op, force: Optional[str] = None) -> dict:
                 d0 = L0 if rng.random() < 0.85 else rng.choice([2, 5])
                 scan.append(tvar(e if rng.random() < 0.8 else 7, [d0] + (sh if sh is not None else [])))
         souts = [rng.randrange(nscan) for _ in range(rng.choice([0, 1, 1, 2]) if ns else rng.choice([1, 2]))]
+        sattrs = {"num_scan_inputs": nscan if family != "illtyped" or rng.random() < 0.5 else nscan + ns + 1}
+        if rng.random() < 0.45:  # non-default axes / directions
+            if rng.random() < 0.7:
+                axes = []
+                for v in scan:
+                    sh = vars_[v]["ty"]["s"]
+                    r = len(sh) if sh else 1
+                    axes.append(rng.randint(-r, r - 1) if rng.random() < 0.9 else r + 1)
+                sattrs["scan_input_axes"] = axes
+            if rng.random() < 0.4:
+                sattrs["scan_input_directions"] = [rng.choice([0, 1]) for _ in scan]
+            if souts and rng.random() < 0.5:
+                oaxes = []
+                for j in souts:
+                    sh = vars_[scan[j]]["ty"]["s"]
+                    r = len(sh) if sh else 1  # rank of the scan output = rank of the slice + 1
+                    oaxes.append(rng.randint(-r, r - 1))
+                sattrs["scan_output_axes"] = oaxes
+            if souts and rng.random() < 0.3:
+                sattrs["scan_output_directions"] = [rng.choice([0, 1]) for _ in souts]
         call = {"module": op.module, "op": "Scan", "vars": vars_, "args": [state + scan],
-                "attrs": {"num_scan_inputs": nscan if family != "illtyped" or rng.random() < 0.5 else nscan + ns + 1},
+                "attrs": sattrs,
                 "sub": {"n_state": ns, "scan_outs": souts}, "out_count": ns + len(souts), "family": family}
     elif op.name == "If":
         cond = tvar(cond_elem, cond_shape)
@@ -713,6 +729,12 @@ def gen_call(rng, op: Op, force: Optional[str] = None) -> dict:
             "args": args, "attrs": attrs, "out_count": None, "family": family}
     if fix and family in ("plain", "reuse") and rng.random() < 0.75:
         fix(rng, call, base)
+    if op.name == "SplitToSequence" and len(call["args"]) > 1 and call["args"][1] is not None:
+        # onnx's shape inference divides by a constant `split` of 0 (SIGFPE kills the process - also the
+        # user's): excluded from generation
+        c = call["vars"][call["args"][1]]["const"]
+        if c is not None:
+            c["data"] = [x if x != 0 else 1 for x in c["data"]]
     if constfed:
         constify(rng, call)
     # variadic outputs
@@ -992,9 +1014,17 @@ def oracle_bodies(call):
         allv = call["args"][0]
         ns = sub["n_state"]
         tys = []
+        in_axes = call["attrs"].get("scan_input_axes")
         for k, v in enumerate(allv):
             t = call["vars"][v]["ty"]
-            tys.append(t if k < ns else {"t": t["t"], "s": None if t["s"] is None else t["s"][1:]})
+            if k < ns or t["s"] is None:
+                tys.append(t if k < ns else {"t": t["t"], "s": None})
+                continue
+            ax = in_axes[k - ns] if in_axes and k - ns < len(in_axes) else 0
+            r = len(t["s"])
+            ax = ax + r if ax < 0 else ax
+            # the body sees the slice: the scan axis removed (an out-of-range axis: ONNX rejects anyway)
+            tys.append({"t": t["t"], "s": [d for i, d in enumerate(t["s"]) if i != ax] if 0 <= ax < r else t["s"][1:]})
         ins = [onnx.helper.make_value_info(f"b{k}", ty_to_proto(t)) for k, t in enumerate(tys)]
         nodes = [onnx.helper.make_node("Identity", [f"b{k}"], [f"r{k}"]) for k in range(ns)]
         outs = [onnx.helper.make_value_info(f"r{k}", ty_to_proto(tys[k])) for k in range(ns)]
